@@ -27,6 +27,8 @@ type genState struct {
 	maxBlocks int
 	past     []string // earlier transactions (text after the mode), for replays
 	afterParamChange bool // the last operation was a delivered change-param transaction
+	aclAtBegin, daoAtBegin string // who owned the access-control list / the DAO when this block began
+	afterHandOver int             // governance transactions still to come right after a hand-over in this block
 	unjailNow int     // key index of a jailed validator whose jail term ends within a nanosecond of this block's time (-1: none)
 }
 
@@ -1195,6 +1197,11 @@ func (f *Fam) checkParams(before, after *Snapshot, w []string, obs string, fail 
 			ok = true
 		}
 		if isTx && t.kind == "daotransfer" && t.f["to"] == daoAddr {
+			ok = true
+		}
+		// an award another module queued for the DAO account is a credit minted in BeginBlock, not DAO spending (its amount
+		// is judged by the C10 clause balance-delta)
+		if !isTx && len(w) > 0 && w[0] == "begin" && daoDelta.IsPositive() {
 			ok = true
 		}
 		if !ok {
